@@ -59,6 +59,16 @@ IoMapKinds(t, iomap) ==
      \o (IF \E i, j \in 1..Len(es) : i # j /\ es[i].tag = es[j].tag THEN <<"tag-duplicate">> ELSE <<>>)
      \o (IF ts # RequiredTargets(t) \/ stdoutAsFile THEN <<"iomap-targets-wrong">> ELSE <<>>)
 
+\* ---- user strings that must occur as string literals of the program (C04) ----
+LeafUserStrings(n) ==
+  IF n.k \in {"name", "iname", "path", "ipath", "pool", "xattr"} THEN {n.s}
+  ELSE IF n.k = "xattr-match" THEN {n.s, n.s2}
+  ELSE {}
+UserStringKinds(t, data) ==
+  LET lits == UNION {{Strings(data[i])[j] : j \in 1..Len(Strings(data[i]))} : i \in 1..Len(data)}
+      want == UNION {LeafUserStrings(n) : n \in LeafNodes(t)}
+  IN IF want \subseteq lits THEN <<>> ELSE <<"user-string-missing">>
+
 \* ---- one file ----
 AgreeKinds(t, prep, framed, iomap, f, now) ==
   LET run == RunPolicy(prep, f)
@@ -112,7 +122,7 @@ JudgeCompile(r) ==
     ELSE IF IsV(prep.v, "err") THEN [kinds |-> <<"runtime-error">>, info |-> prep.v.err]
     ELSE IF Len(prep.scans) # 1 THEN [kinds |-> <<"no-scan-call">>, info |-> "scans"]
     ELSE
-      LET static == ScopeKinds(prep.data[2]) \o ResourceKinds(prep, WithImplicitPrint(t))
+      LET static == ScopeKinds(prep.data[2]) \o ResourceKinds(prep, WithImplicitPrint(t)) \o UserStringKinds(t, prep.data)
                     \o (IF framed # NeedsFramed(t) THEN <<"mode-mismatch">> ELSE <<>>)
                     \o (IF framed THEN IoMapKinds(t, iomap) ELSE <<>>)
                     \o ScanArgKinds(prep, r.o, c.renders[1].path)
